@@ -43,39 +43,8 @@ Definition vf_never (_ : val) : bool := false.
 Definition vf_always (_ : val) : bool := true.
 
 (* ---- comparison of values, sets as multisets --------------------------------------- *)
-Fixpoint remove_first (f : val -> bool) (l : list val) : option (list val) :=
-  match l with
-  | [] => None
-  | x :: r => if f x then Some r
-              else match remove_first f r with Some r' => Some (x :: r') | None => None end
-  end.
-
-Fixpoint veq (fuel : nat) (a b : val) {struct fuel} : bool :=
-  match fuel with
-  | O => false
-  | S f =>
-      match a, b with
-      | VSet s l, VSet t l' =>
-          ty_eqb s t &&
-          (fix go (l l' : list val) : bool :=
-             match l with
-             | [] => match l' with [] => true | _ => false end
-             | x :: r => match remove_first (veq f x) l' with
-                         | Some l'' => go r l''
-                         | None => false
-                         end
-             end) l l'
-      | VList s l, VList t l' => ty_eqb s t && list_eqb (veq f) l l'
-      | VTuple l, VTuple l' => list_eqb (veq f) l l'
-      | VMap s l, VMap t l' =>
-          ty_eqb s t && list_eqb (fun p q => str_eqb (fst p) (fst q) && veq f (snd p) (snd q)) l l'
-      | VObj l, VObj l' =>
-          list_eqb (fun p q => str_eqb (fst p) (fst q) && veq f (snd p) (snd q)) l l'
-      | VMark m v, VMark m' v' => zlist_eqb m m' && veq f v v'
-      | _, _ => val_eqb a b
-      end
-  end.
-Definition val_eqb_ms (a b : val) : bool := veq (S (val_size a)) a b.
+(* [remove_first], [veq], [val_eqb_ms]: Dec/Decode.v (the model's own set
+   construction needs the same comparison to collapse equal elements). *)
 
 (* ---- cases -------------------------------------------------------------------------- *)
 (* mode 0: compare values; 1: compare types only (numbers outside the exact
